@@ -76,7 +76,7 @@ pub struct SessionPoolConfig { pub check_interval: Duration, pub idle_timeout: D
 // dials = number of TLS connections this client has dialled so far (ghost; only Client::create_new_session advances it)
 pub struct PoolState { pub idle_sessions: BTreeMap<u64, PooledSession>, pub fx: Ghost<Seq<PEffect>>, pub dials: Ghost<nat> }
 // the client as its own session-acquisition functions see it
-pub struct Client { pub session_pool: Arc<SessionPool> }
+pub struct Client { pub session_pool: Arc<SessionPool>, pub pool_config: SessionPoolConfig }
 impl Client {
     // dial + TLS + authentication + start of the session (client.rs create_new_session; its construction block is under contract in
     // group `clientsess`): one more connection; the new, open session sits in the idle map under its own sequence number
